@@ -66,9 +66,6 @@ class Module:
         self.functions = {}         # qualname -> Function
         self.classes = {}           # name -> Class
         self.short = self._short()
-        for n in ast.walk(self.tree):
-            for c in ast.iter_child_nodes(n):
-                c._parent = n
 
     def _short(self):
         # 'base/transforms3d', 'super_pose', 'base/__init__'
